@@ -93,7 +93,7 @@ class C16(Prop):
         base = {"n": 0}
 
         def responder(conn, idx, frame):
-            if inject.get("step") is not None and idx - base["n"] == inject["step"]:
+            if inject.get("step") is not None and idx - base["n"] == inject["step"] and (inject.get("only_conn") is None or conn is inject["only_conn"]):
                 return td.EOF
             out = healthy(conn, idx, frame)
             if inject.get("step") is not None and inject.get("glued") and idx - base["n"] == inject["step"] - 1 and isinstance(out, (bytes, bytearray)):
@@ -200,12 +200,19 @@ class C16(Prop):
                         try:
                             base["n"] = 0
                             inject["step"] = step
+                            inject["only_conn"] = cl2.conn if r.random() < 0.5 else None      # this connection is dead; the device itself may be well
+                            n_conns = len(self.dev.conns)
+                            env.idle(r.choice([0, 0, 3, 75, 4000]))      # the connection sat idle for a while before the call
                             rec = await cl2.run("control_breeze", a, remote)
                             await td.settle(cl2.conn, sum(len(w) for w in rec.writes))
                         finally:
                             inject["step"] = None
                             inject["glued"] = None
+                            inject["only_conn"] = None
                             await cl2.close()
+                        if len(self.dev.conns) > n_conns:
+                            acc.violation("reconnected-after-empty-reply", f"{kind_name} {a}: after an empty reply at step {step} the client opened "
+                                          f"{len(self.dev.conns) - n_conns} more connection(s) to the device and went on", {"args": a, "step": step})
                         acc.ev()
                         acc.count("eof_injections")
                         if glued:
@@ -352,6 +359,36 @@ class C16(Prop):
             if bytes(4) + (w["Para"] + "|" + w["HexCode"]).encode() == payload:
                 return w["Key"]
         return None
+
+
+    def thread_pairs(self, ctx):
+        from ..monitors.threadops import api_pair
+        from ..ref import clock
+
+        clock.set_zone("UTC")
+        r = env.rng("C16", "threads")
+        irs = gen.irset(r, toggle=False, special=True, density=1.0, long_codes=False)
+        remote = tcpwork.make_remote(irs)
+        rep = {"temp_tenths": 250, "state": "ON", "mode": "COOL", "target": 22, "fan": "LOW", "swing": "OFF", "remote_id": irs["IRSetID"]}
+        caps_modes = [m for m in ("COOL", "HEAT", "AUTO", "DRY", "FAN") if any(w["Key"].startswith({"COOL": "ar", "HEAT": "ah", "AUTO": "aa", "DRY": "ad", "FAN": "aw"}[m]) for w in irs["IRWaveList"])]
+        # requests this set can serve (the plan says which frames go out), with different codes
+        good = []
+        for _ in range(400):
+            cand = request_for(r.choice([31, 15, 7, 14, 3]), r)
+            plan = ops.breeze_plan(cand, rep, irs)
+            if plan[0] == "ok" and any(k == "breeze_command" for k, _ in plan[1]):
+                key = next(x.get("key") for k, x in plan[1] if k == "breeze_command")
+                if all(key != g[1] for g in good):
+                    good.append((cand, key))
+            if len(good) >= 3:
+                break
+        if len(good) < 2:
+            return []
+        a = {"type": 2, "id": "a1a1a1", "key": "18", "op": "control_breeze", "args": good[0][0], "remote": remote}
+        b = {"type": 2, "id": "b2b2b2", "key": "27", "op": "control_breeze", "args": good[1][0], "remote": remote}
+        c = {"type": 2, "id": "c3c3c3", "key": "31", "op": "control_breeze", "args": good[-1][0], "remote": remote}
+        return [api_pair("control_breeze_device(A) || control_breeze_device(B), one remote object, two threads", a, b, thermostat=rep),
+                api_pair("control_breeze_device(C) || control_breeze_device(A), one remote object, two threads", c, a, thermostat=rep)]
 
 
 PROP = C16()
